@@ -238,6 +238,17 @@ func (w *World) CheckObject(fm *FileModel, s *Spec, structName string, path stri
 			continue
 		}
 		out = append(out, w.checkTags(p, F, ppath)...)
+		if p.ExtType != "" {
+			// the override decides the type: T when required or nillable, *T otherwise; the schema's own keywords are not validated
+			want := p.ExtType
+			if !p.Required && !p.ExtNillable && p.Spec.Default == "" {
+				want = "*" + want
+			}
+			if F.Type != want {
+				out = append(out, Issue{Rule: "A-MAP", Construct: fmt.Sprintf("goJSONSchema.type override (required=%v nillable=%v)", p.Required, p.ExtNillable), Msg: fmt.Sprintf("%s: the field has type %s, the override %q with required=%v nillable=%v demands %s", ppath, F.Type, p.ExtType, p.Required, p.ExtNillable, want)})
+			}
+			continue
+		}
 		out = append(out, w.checkFieldType(fm, p, F, ppath)...)
 		out = append(out, w.checkValue(fm, p.Spec, S, F, ppath)...)
 		out = append(out, w.checkDefault(fm, p, S, F, ppath)...)
